@@ -53,7 +53,7 @@ ParseClauses(T) ==
      ELSE
        (IF LayoutObs(T.type, T.mode) = T.obs.layout THEN {} ELSE {"layout"})
        \cup (IF r.ok THEN (IF o.status = "ok" \/ (lax /\ o.status = "eof") THEN {} ELSE {"status"})
-             ELSE (IF o.status = r.err THEN {} ELSE {"status"}))
+             ELSE (IF ErrMatches(o.status, r.err) THEN {} ELSE {"status"}))
        \cup (IF bothok /\ o.v # r.v THEN {"value"} ELSE {})
        \cup (IF strict /\ o.pos # r.pos THEN {"pos"} ELSE {})
        \cup (IF strict /\ T.type.k \in {"struct", "union"} /\ ~SizesEq(o.sizes, r.sizes) THEN {"sizes"} ELSE {})
@@ -84,7 +84,26 @@ ValueClauses(T) ==
           \cup (LET r == Decode(T.type, T.mode, enc.b, 0, << >>, T.consts) IN
                 IF ~r.ok \/ r.v # T.v \/ r.pos # Len(enc.b) THEN {"SPECBUG:roundtrip-theorem"} ELSE {})
 
-Verdict(T) == IF T.kind = "parse" THEN ParseClauses(T) ELSE ValueClauses(T)
+\* a definition is accepted exactly when it is well formed (no bit-field straddles its storage unit)
+LoadClauses(T) == IF T.loaded = WellFormed(T.type, T.mode) THEN {} ELSE {"load"}
+
+\* a parse under an injected stream fault (C08): the k-th read call delivers fewer bytes than requested, or raises.
+\* Either an error comes out (EOFError for the short read, the injected exception unchanged) or the value of the
+\* undisturbed parse; never anything else.
+FaultClauses(T) ==
+  LET r == Decode(T.type, T.mode, T.input, T.start, << >>, T.consts)
+      o == T.obs.res
+  IN IF r.err = "domain" THEN {"SKIP:domain"}
+     ELSE IF "nan" \in r.fl THEN {"SKIP:nan"}
+     ELSE IF HasEof(T.type) THEN {"SKIP:eof-array-under-fault"}   \* the end-of-stream probe itself is what the fault hits
+     ELSE IF o.status = "ok" THEN (IF r.ok /\ o.v = r.v THEN {} ELSE {"fabricated"})
+     ELSE IF T.fault.kind = "raise" THEN (IF o.status = "injected" \/ (~r.ok /\ ErrMatches(o.status, r.err)) THEN {} ELSE {"fault-status"})
+     ELSE (IF o.status = "eof" \/ (~r.ok /\ ErrMatches(o.status, r.err)) THEN {} ELSE {"fault-status"})
+
+Verdict(T) == CASE T.kind = "parse" -> ParseClauses(T)
+                [] T.kind = "value" -> ValueClauses(T)
+                [] T.kind = "load"  -> LoadClauses(T)
+                [] T.kind = "fault" -> FaultClauses(T)
 
 VARIABLE tid
 Init == tid = 1
